@@ -48,7 +48,7 @@ var (
 	c16Errnos      = []string{"EIO", "ENOSPC", "EACCES", "EDQUOT"}
 	c16Global      = []string{"write", "pwrite64", "close", "fsync", "rename", "renameat", "renameat2", "fchmod", "fchmodat", "chmod", "ftruncate", "unlinkat", "fstat", "newfstatat", "fchown", "linkat"}
 	c16PathSys     = []string{"openat", "read"}
-	c16Inputs      = []string{"p-and-missing-list", "p-and-list-with-missing-entry", "unparseable-then-unreadable", "patch-list-is-a-directory", "patch-list-line-too-long", "missing-path-first", "missing-dir-first", "two-missing-paths", "unparseable-source", "unparseable-result", "rewrite-error", "missing-path", "missing-patch", "malformed-patch", "missing-list-entry", "unreadable-source", "unreadable-patch", "directory-named-go", "rewrite-error-plus-other-change"}
+	c16Inputs      = []string{"p-and-missing-list", "p-and-list-with-missing-entry", "unparseable-then-unreadable", "patch-list-is-a-directory", "patch-list-line-too-long", "missing-path-first", "missing-dir-first", "two-missing-paths", "unparseable-source", "unparseable-result", "rewrite-error", "missing-path", "missing-patch", "malformed-patch", "missing-list-entry", "unreadable-source", "unreadable-patch", "directory-named-go", "rewrite-error-plus-other-change", "no-fault"}
 	c16ErrnoText   = map[string]string{"EIO": "input/output error", "ENOSPC": "no space left on device", "EACCES": "permission denied", "EDQUOT": "disk quota exceeded", "EFBIG": "file too large"}
 	c16FaultsCache = map[string][]fault{}
 )
@@ -412,6 +412,12 @@ func runC16(ctx *core.Ctx, idx int) *core.Result {
 	preArgs := []string{}
 	alsoNamed := []string{} // further paths stderr has to name
 	patchArgs := []string{"-p", "../p.patch"}
+	// every third fault point runs without import processing (the rewritten bytes then come straight from the printer's
+	// buffer); "no-fault" is a plain run of several files, which has to leave every one of them completely patched
+	var flags []string
+	if idx%3 == 2 {
+		flags = []string{"--skip-import-processing"}
+	}
 	expectFailFile := "" // file that must be reported
 	nothingPatched := false // the patches cannot all be loaded: nothing may change
 	causeWords := []string{}
@@ -525,7 +531,7 @@ func runC16(ctx *core.Ctx, idx int) *core.Result {
 	if ft.Input == "directory-named-go" {
 		names = append(names, "dir.go")
 	}
-	args := append(append(append(append([]string{}, patchArgs...), preArgs...), names...), extraArgs...)
+	args := append(append(append(append(append([]string{}, patchArgs...), flags...), preArgs...), names...), extraArgs...)
 	// list.txt paths are relative to the cwd (tree): fix them up
 	fixList := func(d string) {
 		os.WriteFile(filepath.Join(d, "list.txt"), []byte("../p.patch\n../gone.patch\n"), 0o644)
@@ -538,8 +544,13 @@ func runC16(ctx *core.Ctx, idx int) *core.Result {
 	for name, src := range pristine {
 		os.WriteFile(filepath.Join(bd, "tree", name), []byte(src), 0o644)
 	}
-	baseArgs := append([]string{"-p", "../p.patch"}, names...)
-	bres := ctx.RunCLI(core.CLIOpts{Dir: filepath.Join(bd, "tree"), Args: baseArgs, Env: []string{"GOMAXPROCS=1"}})
+	// ... one run per file: what a file becomes does not depend on the others, and a defect that only shows when
+	// several files are written in one run must not find its way into the baseline
+	var bres *core.CLIResult
+	for _, nm := range names {
+		baseArgs := append(append([]string{"-p", "../p.patch"}, flags...), nm)
+		bres = ctx.RunCLI(core.CLIOpts{Dir: filepath.Join(bd, "tree"), Args: baseArgs, Env: []string{"GOMAXPROCS=1"}})
+	}
 	patched := map[string]string{}
 	for _, f := range files {
 		b, _ := os.ReadFile(filepath.Join(bd, "tree", f.name))
